@@ -36,7 +36,6 @@ func init() {
 	groups["pausedowncomp"] = genPauseDownComp
 	groups["pauseprobe"] = genPauseProbe
 	groups["pausesend"] = genPauseSend
-	groups["e2e-pause-resplit"] = genPauseResplit
 }
 
 type c18bEv struct {
@@ -564,7 +563,7 @@ func genPauseSend(c *ctx) {
 		if c.rng.Intn(3) != 0 {
 			evs = append(evs, B(2, []int{2560, 3000, 5120, 1024}[c.rng.Intn(4)]))
 		}
-		for slot < 200 {
+		for slot < 160 {
 			slot += 10
 			switch r := c.rng.Intn(10); {
 			case r < 5:
@@ -580,8 +579,14 @@ func genPauseSend(c *ctx) {
 				evs = append(evs, R(slot+5))
 			}
 		}
-		add("random", proto, 10240, blocks, 230, evs...)
+		add("random", proto, 10240, blocks, 190, evs...)
 	}
+	// the end-to-end re-split cases (below) run meanwhile: they spend most of their time waiting for a 3.2 s stall
+	work, _ := os.MkdirTemp("", "e2e_resplit_")
+	defer os.RemoveAll(work)
+	e2eCases := c18rPrepare(c, work)
+	e2eDone := make(chan struct{})
+	go func() { defer close(e2eDone); c18rRun(e2eCases) }()
 	const attempts = 3
 	alts := make([][]*c18sScn, len(scns))
 	parallelDo(len(scns), len(scns), func(i int) { c18sRun(scns[i]) })
@@ -649,6 +654,8 @@ func genPauseSend(c *ctx) {
 			}
 		}
 	}
+	<-e2eDone
+	c18rReport(c, e2eCases)
 }
 
 func c18sNoDataWhilePaused(c *ctx, s *c18sScn) {
@@ -678,7 +685,7 @@ func c18sNoDataWhilePaused(c *ctx, s *c18sScn) {
 }
 
 // ---------------------------------------------------------------------------------------------
-// e2e-pause-resplit: real client (filter) uploading to a real trz child with a chunk-size limit of 10 KB.  The
+// the end-to-end part of group pausesend ("e2e-pause-resplit" in DESIGN 10.20): real client (filter) uploading to a real trz child with a chunk-size limit of 10 KB.  The
 // acknowledgements stall once for 3.2 s (timeout 6 s): the first late one makes pipelineRecvAck divide the chunk size
 // by three, and the encoded blocks that are still queued are now cut into pieces.  Ctrl-C is typed while the
 // header of the FIRST piece of such a block is being written (the write is held until the pause has registered);
@@ -688,21 +695,22 @@ func c18sNoDataWhilePaused(c *ctx, s *c18sScn) {
 
 var c18rHeaderOnly = regexp.MustCompile(`^#DATA:[0-9]*\n?$`)
 
-func genPauseResplit(c *ctx) {
-	work, _ := os.MkdirTemp("", "e2e_resplit_")
-	defer os.RemoveAll(work)
-	type rc struct {
-		cfg     e2eCfg
-		src     string
-		root    string
-		desc    string
-		bad     []string
-		outcome string
-		keep    int
-		pieces  int
-		after   int
-		paused  bool
-	}
+type c18rCase struct {
+	cfg     e2eCfg
+	src     string
+	root    string
+	desc    string
+	bad     []string
+	outcome string
+	keep    int
+	pieces  int
+	after   int
+	paused  bool
+}
+
+// c18rPrepare builds the cases (all randomness is drawn here), c18rRun runs them, c18rReport reports them.
+func c18rPrepare(c *ctx, work string) []*c18rCase {
+	type rc = c18rCase
 	var cases []*rc
 	n := 0
 	for rep := 0; rep < c.pick(1, 3); rep++ {
@@ -721,6 +729,10 @@ func genPauseResplit(c *ctx) {
 			}
 		}
 	}
+	return cases
+}
+
+func c18rRun(cases []*c18rCase) {
 	parallelDo(len(cases), len(cases), func(i int) {
 		p := cases[i]
 		cfg := p.cfg
@@ -819,10 +831,13 @@ func genPauseResplit(c *ctx) {
 				tailStr(r.serverOut, 160), r.uploadErr))
 		}
 	})
+}
+
+func c18rReport(c *ctx, cases []*c18rCase) {
 	for _, p := range cases {
 		nontrivial := p.paused && p.pieces > 0 && p.keep > 0
 		c.note(nontrivial, fmt.Sprintf("%s => %s pieces=%d keepalives=%d chunks-begun-while-paused=%d", p.desc, p.outcome, p.pieces, p.keep, p.after))
-		c.count("outcome:" + p.outcome)
+		c.count("resplit-e2e-outcome:" + p.outcome)
 		if p.pieces > 0 {
 			c.count("re-split-observed")
 		}
